@@ -55,7 +55,7 @@ def run(tier):
     plist = []
     # ---- (a)
     doubles = boundary_doubles()
-    nrand = 12000 if quick else 400000
+    nrand = 12000 if quick else 400000 * common.TS
     for _ in range(nrand):
         c = rng.below(10)
         if c < 6:
@@ -83,20 +83,20 @@ def run(tier):
         for b in range(0, 100, 1 if not quick else 3):
             lits.append("%d.%d" % (a, b))
             lits.append("%d.%02d" % (a, b))
-    for _ in range(3000 if quick else 60000):
+    for _ in range(3000 if quick else 60000 * common.TS):
         ip = str(rng.below(10 ** rng.range(1, 6)))
         fp = "".join(str(rng.below(10)) for _ in range(rng.range(1, 6)))
         lits.append(ip + "." + fp)
     # long literals: 12-24 significant digits with the decimal point at every position (the value must be the
     # correctly rounded double, not a product of two roundings), and the shortest text of random doubles read back
-    for _ in range(4000 if quick else 100000):
+    for _ in range(4000 if quick else 100000 * common.TS):
         nd = rng.range(12, 24)
         digs = str(rng.range(1, 9)) + "".join(str(rng.below(10)) for _ in range(nd - 1))
         cut = rng.range(1, nd)
         lits.append(digs[:cut] + ("." + digs[cut:] if cut < nd else ""))
         if rng.chance(30):
             lits.append("0." + "0" * rng.range(0, 4) + digs)
-    for _ in range(1500 if quick else 40000):
+    for _ in range(1500 if quick else 40000 * common.TS):
         x = rng.below(10 ** rng.range(14, 17)) / 10 ** rng.range(1, 16)
         t = repr(x)
         if "e" not in t and "inf" not in t:
@@ -115,7 +115,7 @@ def run(tier):
                       "globals_f": [("h%d" % k, v) for k, v in enumerate(vals)], "budget": 2000000})
     # ---- (c)
     digit_strings = [str(n) for n in range(0, 100)] + ["%02d" % n for n in range(0, 10)] + ["0", "00", "007"]
-    digit_strings += [str(rng.below(1000)) for _ in range(40 if quick else 900)]
+    digit_strings += [str(rng.below(1000)) for _ in range(40 if quick else 900 * common.TS)]
     suffixes = [".len", "..3", ".5", ". 5", ".", "..", "", ".x.y", "..-1", ".len()", ".to_num", "...3", ".5.5", ".e5"]
     for d in digit_strings:
         for sfx in suffixes:
